@@ -28,7 +28,7 @@ Fixpoint to_pv (t : tmpl) : option T.pv :=
 (* [bound sp t]: binding t to a field of spec sp succeeds —
    OneOf.custom_apply:  value_spec.apply(c) for every candidate (a candidate that is itself a placeholder is validated
                         against the same spec by its own custom_apply);
-   ManyOf.custom_apply: the spec is a List, its element spec accepts every candidate and its size bounds admit k choices;
+   ManyOf.custom_apply: the spec is a List, its element spec accepts every candidate and its size bounds allow k choices;
    Float.custom_apply:  the spec is a Float whose range contains [lo, hi];
    a constant candidate: value_spec.apply(c) succeeds.
    CustomHyper.custom_apply accepts every spec, so nothing is guaranteed for it; candidates that are containers with
